@@ -196,7 +196,7 @@ func (c c02) Execute(p *core.Plan) *core.Result {
 				fmt.Sscanf(l, "flip1@%d", &bit)
 				l = "flip1/" + respField(s.Type, o.Msg.Orig, bit)
 			}
-			res.Violate(fmt.Sprintf("C02/type%d/S2-accepted/%s", s.Type, l), fmt.Sprintf("session %d: response with fault %s accepted (resulting token is valid and bound: malleable encoding)", s.ID, l), -1)
+			res.Violate(fmt.Sprintf("C02/type%d/S2-accepted/%s", s.Type, sigLabel(l)), fmt.Sprintf("session %d: response with fault %s accepted (resulting token is valid and bound: malleable encoding)", s.ID, l), -1)
 		}
 	})
 	StartAll(w)
